@@ -114,15 +114,17 @@ def check(ctx: Ctx) -> None:
     single_kind = ["[UB1]", "[UB2] U [UB1]", "[7P]", "[501]", "[901]", "[1]"]  # summands with keys of one category only
     pairs = list(itertools.combinations(exprs[:5], 2)) + [(a, b) for a in single_kind for b in ("[1] U [2]", "[UB3]", "[9P]") if a != b] + \
         [(b, a) for a in single_kind[:3] for b in ("[1] U [2]",)]
-    for a, b in pairs:
+    # summands as the extraction hands them out: sanitised, and unsanitised (the default of the tree-level function: keys in
+    # order of occurrence, with repetitions) - the sum is the sanitised extract of the composed expression either way (C18-r1)
+    for a, b, san in [(a_, b_, True) for a_, b_ in pairs] + [(a_, b_, False) for a_, b_ in pairs[:12]]:
         ea, eb = refsem.parse_condition(a), refsem.parse_condition(b)
 
-        def run(ch, ea=ea, eb=eb):
+        def run(ch, ea=ea, eb=eb, san=san):
             h = Harness(model, ch)
             it = h.it
             try:
-                xa = h.call(EXTRACT_TREE, cond_tree(ea), sanitize=True)
-                xb = h.call(EXTRACT_TREE, cond_tree(eb), sanitize=True)
+                xa = h.call(EXTRACT_TREE, cond_tree(ea), sanitize=san)
+                xb = h.call(EXTRACT_TREE, cond_tree(eb), sanitize=san)
                 before = (fields_of(xa), fields_of(xb))
                 total = fields_of(it.binop(ast.Add(), xa, xb, None, None))
                 if (fields_of(xa), fields_of(xb)) != before:
@@ -134,7 +136,7 @@ def check(ctx: Ctx) -> None:
         outs = [o for _, o in explore(run)]
         ctx.count()
         want = want_extract(("and", ea, eb), True)
-        ctx.ob("C18.union", f"({a}) + ({b})", outs == [("ret", want)], f"extract({a}) + extract({b}) gives {outs}, the extract of the composed expression is {want}",
+        ctx.ob("C18.union", f"({a}) + ({b}){'' if san else ' [unsanitised summands]'}", outs == [("ret", want)], f"extract({a}) + extract({b}){'' if san else ' (summands extracted with sanitize=False)'} gives {outs}, the extract of the composed expression is {want}",
                file="src/ahbicht/models/categorized_key_extract.py", function="CategorizedKeyExtract.__add__")
     # out-of-range keys are rejected
     for text in ("[0]", "[1000]", "[1999]", "[2500]"):
